@@ -117,7 +117,7 @@ class VCSStrategyGit(VCSStrategy):
             "-z",
         ]
         result = execute_command(command, _LOGGER, cwd=self.root)
-        all_files = result.stdout.decode("utf-8").split("\0")
+        all_files = os.fsdecode(result.stdout).split("\0")
         return {Path(file_) for file_ in all_files}
 
     def _find_submodules(self) -> set[Path]:
@@ -133,9 +133,7 @@ class VCSStrategyGit(VCSStrategy):
         result = execute_command(command, _LOGGER, cwd=self.root)
         # The final element may be an empty string. Filter it.
         submodule_entries = [
-            entry
-            for entry in result.stdout.decode("utf-8").split("\0")
-            if entry
+            entry for entry in os.fsdecode(result.stdout).split("\0") if entry
         ]
         # Each entry looks a little like 'submodule.submodule.path\nmy_path'.
         # Everything after the first newline is the path; it may itself
@@ -182,7 +180,7 @@ class VCSStrategyGit(VCSStrategy):
         result = execute_command(command, _LOGGER, cwd=cwd)
 
         if not result.returncode:
-            path = result.stdout.decode("utf-8")[:-1]
+            path = os.fsdecode(result.stdout)[:-1]
             return Path(os.path.relpath(path, cwd))
 
         return None
@@ -216,7 +214,7 @@ class VCSStrategyHg(VCSStrategy):
             "--print0",
         ]
         result = execute_command(command, _LOGGER, cwd=self.root)
-        all_files = result.stdout.decode("utf-8").split("\0")
+        all_files = os.fsdecode(result.stdout).split("\0")
         return {Path(file_) for file_ in all_files}
 
     def is_ignored(self, path: StrPath) -> bool:
@@ -249,7 +247,7 @@ class VCSStrategyHg(VCSStrategy):
         result = execute_command(command, _LOGGER, cwd=cwd)
 
         if not result.returncode:
-            path = result.stdout.decode("utf-8")[:-1]
+            path = os.fsdecode(result.stdout)[:-1]
             return Path(os.path.relpath(path, cwd))
 
         return None
@@ -272,7 +270,7 @@ class VCSStrategyJujutsu(VCSStrategy):
         """
         command = [str(self.EXE), "files"]
         result = execute_command(command, _LOGGER, cwd=self.root)
-        all_files = result.stdout.decode("utf-8").split("\n")
+        all_files = os.fsdecode(result.stdout).split("\n")
         return {Path(file_) for file_ in all_files if file_}
 
     def is_ignored(self, path: StrPath) -> bool:
@@ -314,7 +312,7 @@ class VCSStrategyJujutsu(VCSStrategy):
         result = execute_command(command, _LOGGER, cwd=cwd)
 
         if not result.returncode:
-            path = result.stdout.decode("utf-8")[:-1]
+            path = os.fsdecode(result.stdout)[:-1]
             return Path(os.path.relpath(path, cwd))
 
         return None
@@ -335,7 +333,7 @@ class VCSStrategyPijul(VCSStrategy):
         """Return a set of all files tracked by pijul."""
         command = [str(self.EXE), "list"]
         result = execute_command(command, _LOGGER, cwd=self.root)
-        all_files = result.stdout.decode("utf-8").splitlines()
+        all_files = os.fsdecode(result.stdout).splitlines()
         return {Path(file_) for file_ in all_files}
 
     def is_ignored(self, path: StrPath) -> bool:
